@@ -103,11 +103,13 @@ func toInt(f float64) (int, error) {
 // checkedRandomRange is randomRange for scripts: it reports invalid bounds as errors.
 func checkedRandomRange(rng *rng.RNG) func(float64, float64) (int, error) {
 	return func(lowerBound, upperBound float64) (int, error) {
-		lower, err := toInt(lowerBound)
+		// the result is an integer between the bounds: a bound that is not a whole number
+		// is moved inwards to the next one (truncating would let random_range(0.5, 1.5) return 0)
+		lower, err := toInt(math.Ceil(lowerBound))
 		if err != nil {
 			return 0, fmt.Errorf("invalid lower bound: %w", err)
 		}
-		upper, err := toInt(upperBound)
+		upper, err := toInt(math.Floor(upperBound))
 		if err != nil {
 			return 0, fmt.Errorf("invalid upper bound: %w", err)
 		}
